@@ -72,7 +72,7 @@ def static_labels(code):
 def main(tier, seed):
     run = core.Run("C05", tier, seed, "proof")
     core.setup_impl_import()
-    ass = core.standard_proof_phase(run, "C05", None, "PV.Props.C05", extra_targets=["theories/Valid/Diff.vo"])
+    ass = core.standard_proof_phase(run, "C05", None, "PV.Props.C05", extra_targets=["theories/Valid/Diff.vo", "theories/Valid/ResolveSem.vo"])
     rng = run.rng
     n = 50 if tier == "quick" else 700
     progs = []
@@ -127,6 +127,14 @@ def main(tier, seed):
     except core.CoqEvalError as e:
         run.obligation_broken("glue evaluation (resolve (parse labelled) = parse label-free)", str(e))
         bad = []
+    # how many of the compiles are decided by the semantic theorem (call-free fragment + glue equality)?
+    try:
+        notfrag = core.coq_mismatches("c05f", "From Coq Require Import PrimFloat.\nFrom PV Require Import IC10.Values IC10.Machine IC10.FloatAlg Valid.Resolve Valid.ResolveSem.",
+                                      "fun c => frag (fst c)", glue_cases, shard=25)
+        kinds["pairs_in_call_free_fragment"] = len(glue_cases) - len(notfrag)
+        kinds["pairs_decided_by_semantic_theorem"] = len(set(range(len(glue_cases))) - set(notfrag) - set(bad))
+    except core.CoqEvalError as e:
+        run.note("fragment evaluation failed: " + str(e)[-200:])
     for i in bad:
         name, src, opts, lc, nc, p = glue_meta[i]
         d = first_text_diff(lc, nc)
